@@ -16,14 +16,15 @@ RULE = ("differential monitor over whole boundary traces: for each seeded case (
         "D/options/seeds (incl. unseeded and noisy ones), (ii) after arbitrary consumption/reseeding of numpy.random and random "
         "before construction and between construction and optimize(), (iii) with other BADS objects constructed (and even run) "
         "between constructing and running the instance under test, (iv) under a different PYTHONHASHSEED, (v) a second identical "
-        "fresh instance run in the same process. Oracle: bitwise equality of the ordered list of (x bytes, returned value bytes) and "
+        "fresh instance run in the same process, (vi) after / interleaved with SIBLING runs: the same problem (same D, bounds, target) "
+        "under another seed, budget and initial-design size - the history most likely to collide with any per-process cache. Oracle: bitwise equality of the ordered list of (x bytes, returned value bytes) and "
         "of x, fval, fsd, func_count, message; the first divergent call index is the witness. Non-trivial: variant whose history "
         "measurably perturbed the global RNG state at construction or at optimize() time (state digests differ from the reference) "
         "and whose trace has >= 20 calls; distinct = distinct (case, variant kind)")
 RUN_KW = {"quick": dict(timeout_case=900, wall_cap=1000), "thorough": dict(timeout_case=3200, wall_cap=3400)}
 ASSUMPTIONS = ["targets with a private unseeded generator are excluded: they are not 'the same target'"]
 
-VARIANTS = ["pre-opt", "pre-rng", "mid-construct", "mid-opt-rng", "hashseed", "second", "all"]
+VARIANTS = ["pre-opt", "pre-rng", "mid-construct", "mid-opt-rng", "hashseed", "second", "all", "pre-sibling", "mid-sibling"]
 
 
 def cases(tier, seed):
@@ -67,12 +68,16 @@ def mkplan(kind, rs):
         p["mid"] = [con(), con()]
     elif kind == "mid-opt-rng":
         p["mid"] = [rngs(), opt(), rngs()]
+    elif kind == "pre-sibling":
+        p["pre"] = [["sibling", int(rs.randint(10**6)), True]] + ([["sibling", int(rs.randint(10**6)), True]] if rs.rand() < 0.5 else [])
+    elif kind == "mid-sibling":
+        p["mid"] = [["sibling", int(rs.randint(10**6)), bool(rs.rand() < 0.7)]]
     elif kind == "hashseed":
         p["hashseed"] = str(int(rs.choice([1, 12345, 987654321])))
     elif kind == "second":
         p["second"] = True
     elif kind == "all":
-        p["pre"] = [opt(), rngs(), con()]
+        p["pre"] = [opt(), rngs(), con(), ["sibling", int(rs.randint(10**6)), True]]
         p["mid"] = [con(), rngs(), opt()]
         p["hashseed"] = "4242"
         p["second"] = True
